@@ -53,3 +53,34 @@ package common
 //@   nofail
 //@   ensures[C32] result.Amount >= 8 * words(-big(b))
 //@   replay metering
+//@ func NewBitwiseOrBigIntMemoryUsage
+//@   requires a != nil && b != nil
+//@   assume L_words_tc(big(a), big(b))
+//@   nofail
+//@   ensures[C32] result.Amount >= 8 * words(tcor(big(a), big(b)))
+//@   replay metering
+//@ func NewBitwiseXorBigIntMemoryUsage
+//@   requires a != nil && b != nil
+//@   assume L_words_tc(big(a), big(b))
+//@   nofail
+//@   ensures[C32] result.Amount >= 8 * words(tcxor(big(a), big(b)))
+//@   replay metering
+//@ func NewBitwiseAndBigIntMemoryUsage
+//@   requires a != nil && b != nil
+//@   assume L_words_tc(big(a), big(b))
+//@   nofail
+//@   ensures[C32] result.Amount >= 8 * words(tcand(big(a), big(b)))
+//@   replay metering
+// shift amounts are at most 2^64-1 at every call site (callers check IsUint64 first)
+//@ func NewBitwiseLeftShiftBigIntMemoryUsage
+//@   requires a != nil && b != nil && big(b) >= 0 && big(b) < pow2(64)
+//@   assume L_words_shl(big(a), big(b)) && L_words_basic(big(a))
+//@   nofail
+//@   ensures[C32] result.Amount >= 8 * words(shl(big(a), big(b)))
+//@   replay metering
+//@ func NewBitwiseRightShiftBigIntMemoryUsage
+//@   requires a != nil && b != nil && big(b) >= 0 && big(b) < pow2(64)
+//@   assume L_words_shr(big(a), big(b)) && L_words_basic(big(a))
+//@   nofail
+//@   ensures[C32] result.Amount >= 8 * words(shr(big(a), big(b)))
+//@   replay metering
